@@ -10,5 +10,7 @@ CHECKS["C05"] = dict(
     level_note="Trusted: the M-CTRL model (harness), rapid, the race detector for L3. Region formation (a gate joins the single region its range overlaps; a range overlapping two regions is refused) follows the controller's documented structure.",
     rule=("L1: 2-30 ops over subjects a-e, authorities {0,1,5,254,255}, ranges [s,MAX) (70%) or bounded. Non-trivial = history with >=3 holder changes including one caused by SetAuthority and a tie decided by open order; distinct by script hash."),
     assumptions=["gates are opened with ranges of positive length"],
-    tests=[dict(name="TestC05Control", quick=dict(cases=40000, shards=2), thorough=dict(cases=400000, shards=12, timeout=1500))],
+    tests=[dict(name="TestC05Control", quick=dict(cases=40000, shards=2), thorough=dict(cases=400000, shards=12, timeout=1500)),
+           dict(name="TestC05Concurrent", race=True, quick=dict(cases=3000, shards=2, gomaxprocs=[4, 16]), thorough=dict(cases=40000, shards=8, gomaxprocs=[1, 2, 4, 16], timeout=1500)),
+           dict(name="TestC05Writers", quick=dict(cases=1500, shards=2), thorough=dict(cases=15000, shards=8, timeout=1500))],
 )
